@@ -67,7 +67,16 @@ func rtBuild(c Sx, caching bool) *rtRouter {
 			opts = append(opts, rux.HandleFallbackRoute)
 		case "cache":
 			if caching {
-				opts = append(opts, rux.CachingWithNum(uint16(o.List[1].Int())))
+				// the three spellings of "cache with capacity n"; which one is used depends only on the case
+				n := uint16(o.List[1].Int())
+				switch (o.List[1].Int() + len(xs[2].Lst())) % 3 {
+				case 0:
+					opts = append(opts, rux.CachingWithNum(n))
+				case 1:
+					opts = append(opts, rux.EnableCaching, rux.MaxNumCaches(n))
+				default:
+					opts = append(opts, rux.MaxNumCaches(n), rux.EnableCaching)
+				}
 			}
 		case "intercept":
 			opts = append(opts, rux.InterceptAll(o.List[1].Str()))
